@@ -156,8 +156,9 @@ class Sim:
     def inject(self, call, nth, err):
         return self.cmd("inject %s %d %d" % (call, nth, err))
 
-    def failalloc(self, nth, count=1):
-        return self.cmd("failalloc %d %d" % (nth, count))
+    def failalloc(self, nth, count=1, site=0):
+        """site 0: the accounting allocator refuses; site 1: the C library returns NULL inside it"""
+        return self.cmd("failalloc %d %d %d" % (nth, count, site))
 
     def scribble(self, mode):
         return self.cmd("scribble %d" % mode)
